@@ -17,6 +17,7 @@ import (
 	"net/url"
 	"strconv"
 	"strings"
+	"sync"
 	"sync/atomic"
 	"testing"
 	"time"
@@ -39,6 +40,8 @@ func failGroup(o string) string {
 		return "400-not-already-revoked"
 	case "dropped":
 		return "connection-dropped"
+	case "timeout":
+		return "timeout"
 	}
 	return "error-status"
 }
@@ -66,7 +69,9 @@ func revokeAnswer(o string, r *rand.Rand, hold chan struct{}) sut.Answer {
 		return sut.Answer{Status: 500, Body: `{"error":"server_error"}`}
 	case "dropped":
 		return sut.Answer{Drop: true}
-	case "slow-ok":
+	case "slow-ok", "timeout":
+		// timeout: the answer is held until after the authenticator's response, i.e. beyond the provider
+		// HTTP client's 5 s timeout; whatever the IdP writes afterwards reaches nobody
 		return sut.Answer{Status: 200, Hold: hold}
 	}
 	panic(o)
@@ -132,7 +137,27 @@ func (k *kase) descriptor() string {
 	return fmt.Sprintf("%v|%s|%s|%s|%s|%s|%s|%s|%s|%s", k.Secure, k.Host, k.ProxyCookie, k.Sig, k.Mode, k.GetCookie, k.PostCookie, k.Revoke, k.Reuse, k.AuthTime+"|"+k.Pre)
 }
 
-func genCase(i int, r *rand.Rand) *kase {
+// timeoutHistories is how many histories (the first indices, so that they run alongside all others and
+// cost one client timeout of wall time) let the IdP's revoke endpoint hang beyond the provider's HTTP
+// client timeout.
+func timeoutHistories(env vh.Env) int { return env.Pick(6, 40) }
+
+func genCase(i int, r *rand.Rand, nTimeout int) *kase {
+	k := genCaseBase(i, r)
+	if i < nTimeout {
+		k.Revoke = "timeout"
+		k.Sig = validSigs[i%len(validSigs)]
+		k.GetCookie, k.PostCookie = "genuine", "genuine"
+		k.AuthTime = []string{"fresh", "token-expired", "lifetime-nearly-over"}[i%3]
+		k.Replay = false
+		if k.Pre == "" || k.noRT() {
+			k.Pre = "none"
+		}
+	}
+	return k
+}
+
+func genCaseBase(i int, r *rand.Rand) *kase {
 	k := &kase{Index: i}
 	k.Secure = i%2 == 1
 	k.Host = []string{hostApp, hostGrp}[(i/2)%2]
@@ -526,6 +551,7 @@ func TestProp(t *testing.T) {
 	rep.Assume("stream c19-concurrent: 2-3 simultaneous sign-out POSTs on one authenticator for harness-sealed sessions (same e-mail / JWT-like tokens with a long common prefix or suffix / unrelated / the very same session); the first revoke call is held open at the fake IdP until the others are in flight; each request is judged on its own token's revoke calls. Merging the calls of the SAME session is a don't-care")
 	rep.Assume("stream c19-proxy-request: the proxy's sign-out request is fuzzed (open-redirect style values in rd/redirect/redirect_uri/return_to/next/url/continue/state/ts/sig as query or POST form parameters, X-Forwarded-Host/Forwarded/X-Original-URL style headers, hostile request-targets, GET/POST/HEAD); the host the request is FOR is the Host header, or the authority of an absolute-form target (Go's server semantics); a client-chosen landing path on that same host is a don't-care")
 	rep.Assume("authenticator session time at sign-out: token-expired and lifetime-nearly-over sessions must be revoked like fresh ones (Okta revokes the refresh token, which does not lapse with the access token); lifetime-expired sessions and sessions with neither refresh token nor live access token are counted don't-cares; a session without refresh token but with a live access token must not be cleared without any revoke call at the IdP")
+	rep.Assume("revoke outcome 'timeout' (first 6 / 40 histories, and 6 / 24 concurrent groups): the fake IdP holds its answer until after the authenticator answered the browser, i.e. beyond the provider HTTP client's 5 s timeout; the token counts as NOT revoked; revoke calls that reach the IdP after the response are counted (late_revoke_calls_after_response), they do not make the sign-out right")
 	rep.Assume("virtual time: the saved proxy cookie is re-sealed with all deadlines moved into the past (11 min: validity lapsed; 65 min: access token lapsed); signature timestamps are crafted by the harness, >= 60 s away from the 5 minute edge")
 
 	only, skipHist := env.Only(stream)
@@ -536,27 +562,42 @@ func TestProp(t *testing.T) {
 		if err != nil {
 			rep.Inconclusive("two-service stack did not start: " + err.Error())
 		} else {
+			// the three streams share the stack and run side by side (their waits overlap)
+			var streams sync.WaitGroup
 			if !skipHist {
-				n := env.Pick(320, 8000)
-				start := time.Now()
-				vh.ForEach(n, 32, only, func(i int) { runHistory(w, rep, env, i) })
-				rep.Extra("wall_histories_s", time.Since(start).Seconds())
-				if only < 0 {
-					if f := atomic.LoadInt64(&preconditionFailures); f*50 > int64(n) {
-						rep.Inconclusive(fmt.Sprintf("%d of %d histories did not complete their login (harness precondition)", f, n))
+				streams.Add(1)
+				go func() {
+					defer streams.Done()
+					n := env.Pick(320, 8000)
+					start := time.Now()
+					vh.ForEach(n, 32, only, func(i int) { runHistory(w, rep, env, i) })
+					rep.Extra("wall_histories_s", time.Since(start).Seconds())
+					if only < 0 {
+						if f := atomic.LoadInt64(&preconditionFailures); f*50 > int64(n) {
+							rep.Inconclusive(fmt.Sprintf("%d of %d histories did not complete their login (harness precondition)", f, n))
+						}
 					}
-				}
+				}()
 			}
 			if !skipConc {
-				start := time.Now()
-				runConcurrent(w, rep, env, onlyConc)
-				rep.Extra("wall_concurrent_s", time.Since(start).Seconds())
+				streams.Add(1)
+				go func() {
+					defer streams.Done()
+					start := time.Now()
+					runConcurrent(w, rep, env, onlyConc)
+					rep.Extra("wall_concurrent_s", time.Since(start).Seconds())
+				}()
 			}
 			if !skipReq {
-				start := time.Now()
-				runReqFuzz(w, rep, env, onlyReq)
-				rep.Extra("wall_proxy_request_fuzz_s", time.Since(start).Seconds())
+				streams.Add(1)
+				go func() {
+					defer streams.Done()
+					start := time.Now()
+					runReqFuzz(w, rep, env, onlyReq)
+					rep.Extra("wall_proxy_request_fuzz_s", time.Since(start).Seconds())
+				}()
 			}
+			streams.Wait()
 			if p := w.as.ErrLog.Panics() + w.px[0].ErrLog.Panics() + w.px[1].ErrLog.Panics(); p > 0 {
 				rep.Violate(stream, 0, "handler panic during sign-out histories", fmt.Sprintf("%d handler panics logged by the servers", p), nil)
 			}
@@ -580,6 +621,7 @@ func TestProp(t *testing.T) {
 	for _, o := range revokeOutcomes {
 		floors["revoke_outcome_observed_"+o] = env.Pick(5, 150)
 	}
+	floors["revoke_outcome_observed_timeout"] = env.Pick(4, 25)
 	for name, min := range floors {
 		if env.Replay != "" || skipHist {
 			min = 0
@@ -593,7 +635,7 @@ func TestProp(t *testing.T) {
 
 func runHistory(w *world, rep *vh.Report, env vh.Env, i int) {
 	r := vh.CaseRNG(env.Seed, stream, i)
-	k := genCase(i, r)
+	k := genCase(i, r, timeoutHistories(env))
 	rep.Eval()
 	h := &hist{w: w, rep: rep, k: k, r: r}
 	tag := fmt.Sprintf("s%dh%d", env.Seed, i)
@@ -729,7 +771,7 @@ func (h *hist) signOut() bool {
 	// POST (as the page's form sends it: parameters in the body, none in the query)
 	revokeKey := h.tokens()
 	var hold chan struct{}
-	if k.Revoke == "slow-ok" {
+	if k.Revoke == "slow-ok" || k.Revoke == "timeout" {
 		hold = make(chan struct{})
 	}
 	ans := revokeAnswer(k.Revoke, h.r, hold)
@@ -914,6 +956,21 @@ func (h *hist) doPost(target string, cookies []string, form url.Values, hold cha
 	}
 	done := make(chan *sut.Resp, 1)
 	go func() { done <- h.b.authReq("POST", target, cookies, form) }()
+	if h.k.Revoke == "timeout" {
+		// the IdP does not answer until the authenticator has given up and answered the browser
+		select {
+		case rs := <-done:
+			close(hold)
+			// the fake IdP logs a call when it ends: let the released call reach the log
+			for t := 0; t < 2000 && h.ownRevokeSeen() && len(h.revokeCalls()) == 0; t++ {
+				time.Sleep(time.Millisecond)
+			}
+			return rs
+		case <-time.After(15 * time.Second):
+			close(hold)
+			return nil
+		}
+	}
 	deadline := time.After(15 * time.Second)
 	tick := time.NewTicker(time.Millisecond)
 	defer tick.Stop()
@@ -971,7 +1028,20 @@ func (h *hist) judgePost(post *sut.Resp, nCalls, nDone int, cs, good string, ref
 		return false
 	}
 	rep.Count("revoke_outcome_observed_"+k.Revoke, 1)
-	if nDone < nCalls && nDone == 0 {
+	if k.Revoke == "timeout" {
+		// after the response: a revoke call arriving late (a background retry) repairs nothing; counted
+		time.Sleep(200 * time.Millisecond)
+		after := 0
+		for _, c := range h.revokeCalls() {
+			if c.EndSeq > post.EndSeq {
+				after++
+			}
+		}
+		if after > 1 { // one of them is the call the authenticator gave up on
+			rep.Count("late_revoke_calls_after_response", after-1)
+		}
+	}
+	if nDone < nCalls && nDone == 0 && k.Revoke != "timeout" {
 		h.violate("auth sign_out POST: answered before the revoke call completed", fmt.Sprintf("status %d, session cookie %s, while the IdP's answer was still pending", post.Status, cs))
 		return revokeSucceeds(k.Revoke)
 	}
